@@ -119,6 +119,8 @@ class ModuleInfo(object):
                 self.tree = ast.parse(source, filename=path)
         except SyntaxError as e:
             raise AnalysisError("cannot parse %s: %s" % (relpath, e))
+        from .normalise import normalise_module
+        self.tree = normalise_module(self.tree, name)
         self.is_package = os.path.basename(path) == "__init__.py"
         self.functions = {}
         self.classes = {}
